@@ -3,6 +3,8 @@
 # writes seeded/<id>/meta.json and seeded/MATRIX.md
 TIER="${1:-quick}"
 cd /verif
+# evidence and replays of runs against changed trees never land in /verif
+export XSMC_OUT=/tmp/xsmc-seed-out; mkdir -p "$XSMC_OUT"
 echo "| seed | property | existing suite with change | demo with / without change | ./check $TIER | first reported violation |" > seeded/MATRIX.md
 echo "|---|---|---|---|---|---|" >> seeded/MATRIX.md
 for d in seeded/C*/; do
